@@ -162,13 +162,19 @@ def check_fiber_forms(rec, n, vals, scalars):
                     rec.violation("fiber-scalar", "wrong content", case, "scalar form: add over the whole shape / scale stored", dense(r, n), exp)
                 if dense(a, n) != da:
                     rec.violation("fiber-scalar", "operand changed", case, "operand untouched")
-            a2 = Fiber(ca, pa, shape=n)
-            da = dense(a2, n)
-            exp = [x + s for x in da] if op == "+" else [x * s for x in da]
-            case = dict(form="fiber-scalar", op=op, a=[ca, pa], s=s, side="inplace", n=n)
-            ok, r2 = guarded(rec, "fiber-scalar", case, lambda: operator.iadd(a2, s) if op == "+" else operator.imul(a2, s))
-            if ok and (r2 is not a2 or dense(a2, n) != exp):
-                rec.violation("fiber-scalar", "in-place scalar form differs", case, "content after a op= s == content(a op s)", dense(a2, n), exp)
+            for active in (None, (1, n - 1)):
+                # a fiber whose active range is a strict sub-range of its shape (e.g. a partition of a split): the scalar forms
+                # still range over the whole shape, and the in-place form must agree with the value-returning one
+                a2 = Fiber(ca, pa, shape=n, active_range=active)
+                a3 = Fiber(ca, pa, shape=n, active_range=active)
+                case = dict(form="fiber-scalar", op=op, a=[ca, pa], s=s, side="inplace", n=n, active=active)
+                ok, val = guarded(rec, "fiber-scalar", case, lambda: (a3 + s) if op == "+" else (a3 * s))
+                if not ok:
+                    continue
+                exp = dense(val, n)
+                ok, r2 = guarded(rec, "fiber-scalar", case, lambda: operator.iadd(a2, s) if op == "+" else operator.imul(a2, s))
+                if ok and (r2 is not a2 or dense(a2, n) != exp):
+                    rec.violation("fiber-scalar", "in-place scalar form differs", case, "content after a op= s == content(a op s)", dense(a2, n), exp)
 
 
 def run(tier, seed):
